@@ -18,7 +18,7 @@
     candidate with all cofactors positive is the projection on its affine hull).
     What judges the IMPLEMENTATION on every generated input: the certificates, whose soundness is
     [C18_kkt_cert_sound], [C18_cert_z_sound], [C18_cert_z_min_norm], [C18_bary_z_sound]. *)
-From Coq Require Import List NArith ZArith QArith Reals.
+From Coq Require Import List NArith ZArith QArith Reals Lra.
 From D3 Require Import Base.Ops Base.Vec Base.RVec Spec.Convex Spec.ConvexHull
   Model.Simplex Model.SimplexOrig Model.SimplexRun Checker.Kkt Checker.KktZ
   Proofs.SimplexLine Proofs.SimplexTriangle Proofs.SimplexOrig Proofs.SimplexLattice
@@ -37,7 +37,7 @@ Proof. exact kkt_cert_sound. Qed.
 Print Assumptions C18_kkt_cert_sound.
 
 Example C18_kkt_cert_nonvacuous :
-  kkt_cert [V 1 1 0; V 1 (-1) 0; V 3 0 2]%Q (V 1 0 0) [0; 1]%nat [1 # 2; 1 # 2]%Q 0 = true.
+  kkt_cert [V 1 1 0; V 1 (-1) 0; V 3 0 2]%Q (V 1 0 0)%Q [0; 1]%nat [1 # 2; 1 # 2]%Q 0%Q = true.
 Proof. vm_compute. reflexivity. Qed.
 
 (** the integer certificate evaluated by the check: for the real configuration [s * Y]
